@@ -312,6 +312,10 @@ def write_replay(prop, seed, n, payload):
 
 
 def write_evidence(prop, tier, seed, level, coverage, assumptions, wall, violations):
+    global EVIDENCE
+    if os.path.realpath(REPO) != "/repo":
+        # a run against a scratch worktree (a seeded change): its record must never replace the evidence of /repo
+        EVIDENCE = os.path.join(VERIF, "replays", "evidence_scratch")
     os.makedirs(EVIDENCE, exist_ok=True)
     ev = dict(property_id=prop, tier=tier, seed=seed, level=level, coverage=coverage,
               assumptions=assumptions, wall_s=round(wall, 2), violations=violations)
